@@ -37,6 +37,8 @@ def ensure_env():
     if REPO not in sys.path:
         sys.path.insert(0, REPO)
     sys.dont_write_bytecode = True
+    from . import sched as _sched
+    _sched.install_lock_seam()        # threading.Lock/RLock created by the library become scheduler-aware
     if BACKEND == "stub":
         from . import fake_secp
         fake_secp.install()           # must happen before the library is imported: it picks its back end at import
